@@ -1,7 +1,12 @@
 #!/bin/bash
-# usage: tools_mutant.sh <check-id> <file> <python-expr-old> <new>   (applies a textual mutation to /repo, runs the repo tests of that package and the check, reverts)
+# usage: tools_mutant.sh <check-id> <file> <old-text> <new-text>
+# Applies a textual mutation to a scratch worktree of /repo's HEAD, runs that package's own tests and the check, reverts.
 id=$1; file=$2; old=$3; new=$4
-cd /repo || exit 1
+M=/tmp/mutrepo
+head=$(git -C /repo rev-parse HEAD)
+if [ ! -d $M ]; then git -C /repo worktree add -q --detach $M $head || exit 3; fi
+git -C $M checkout -q --detach $head && git -C $M checkout -q -- . && git -C $M clean -fdq
+cd $M || exit 1
 python3 - "$file" "$old" "$new" <<'PY'
 import sys
 p,old,new=sys.argv[1],sys.argv[2],sys.argv[3]
@@ -13,9 +18,9 @@ PY
 [ $? -eq 0 ] || exit 3
 pkg=./$(dirname $file)
 if go build ./... 2>/tmp/mut_build.txt; then
-  echo "repo tests: $(GOFLAGS=-mod=mod go test -count=1 $pkg 2>&1 | tail -1)"
-  cd /verif && ./check $id --no-evidence ${TIER:+--tier $TIER} 2>&1 | grep -E "sig=|^$id " | head -${LINES_MAX:-6}
+  echo "repo tests: $(GOFLAGS=-mod=mod GOPROXY=off GOSUMDB=off go test -count=1 $pkg 2>&1 | tail -1)"
+  cd /verif && VERIF_REPO=$M ./check $id --no-evidence ${TIER:+--tier $TIER} 2>&1 | grep -E "sig=|^$id " | head -${LINES_MAX:-6}
 else
   echo "MUTANT does not compile"; head -5 /tmp/mut_build.txt
 fi
-cd /repo && git checkout -q -- . 
+git -C $M checkout -q -- . && git -C $M clean -fdq
